@@ -60,6 +60,34 @@ def c07_runs(tier):
 
 
 PROPS = {
+    "C11": {
+        "engine": "explicit-state exploration + rapidcheck walks",
+        "technique": "invariant over generated histories: explicit-state closure with context snapshots, exhaustive bounded operation sequences and rapidcheck random walks, status-byte equations checked after every operation",
+        "level": "the five summary equations are evaluated after every operation on (a) the complete reachable state space of each register "
+                 "group (thorough: each pair of groups) over 3 representative bits per register x 8 SRE values x queue fill, (b) every "
+                 "operation sequence up to length 3 (quick) / 4 (thorough) from the initial state, (c) random walks of up to 200 operations "
+                 "over full 16-bit values",
+        "level_note": "operations are public API calls and command lines of the shipped IEEE 488.2 / STATus handlers; the status byte is never written directly; no device-dependent texts (snapshots are memcpy copies)",
+        "design_ref": "DESIGN.md section 4, C11",
+        "runs": simple("c11"),
+        "rule": "evaluations = operations executed; closure states are distinct by construction (visited set), sequences distinct by construction, "
+                "walks by hash; non-trivial = state with >= 1 summary bit set and >= 1 non-zero enable register (closure), additionally reached "
+                "by a history in which an enable register was written after its event register changed (sequences, walks)",
+        "assumptions": COMMON_ASSUME + ["histories never write the status byte directly"],
+    },
+    "C12": {
+        "engine": "exhaustive enumeration + explicit-state exploration + rapidcheck walks",
+        "technique": "reference classification table over all 65536 codes; latch/persistence/service-request rules checked on every transition of the C11 exploration (closure, bounded sequences, rapidcheck walks)",
+        "level": "all 65536 error codes against the class table; condition->event latching, persistence of event bits except under the defined "
+                 "clears, and the service-request callback (value = status byte with MSS, called on every MSS rise) on every transition of "
+                 "the state-space closure, all operation sequences up to length 3/4 and random walks",
+        "level_note": "extra callbacks while MSS stays 1 are allowed; the -350 substituted on overflow is not checked for a class bit",
+        "design_ref": "DESIGN.md section 4, C12",
+        "runs": simple("c12"),
+        "rule": "evaluations = codes pushed + operations executed; non-trivial = code at a class boundary (+-1 around each hundred, extremes) or "
+                "state/history with a summary bit and an enable set; for sequences and walks a history in which MSS rises at least twice",
+        "assumptions": COMMON_ASSUME + ["histories never write the status byte directly"],
+    },
     "C18": {
         "engine": "enumeration + rapidcheck",
         "technique": "reference-model comparison (independent longest-fitting-prefix encoder and 488.2 string reader) over an enumerated grid of codes, text lengths and quote positions plus rapidcheck-generated texts",
